@@ -1614,6 +1614,96 @@ def guarded_star_flag(unit, fn, lean, attr, compute_lean, field):
     return {"reads": attr}
 
 
+def cell_to_edge_fn(unit, fn, lean):
+    """`cell_to_edge`: `if self._adjC2E is None: self._adjC2E = dict()`; `if self._adjC2E.get(c, None) is None:` build the entry
+    `self._adjC2E[c]` (a list) with nested loops; `return self._adjC2E[c]`.  The entry is computed once per cell from the cell list:
+    the generated definition is that computation (the per-cell cache is the guard table's subject)."""
+    params = [a.arg for a in fn.args.args][1:]
+    if len(params) != 1 or fn.args.vararg: raise TranslateError(f"{fn.name}: signature")
+    c = params[0]
+    body = _body(fn)
+    if len(body) != 3: raise TranslateError(f"{fn.name}: {len(body)} statements, 3 expected")
+    s0, s1, s2 = body
+    A = "self._adjC2E"
+    ok = isinstance(s0, ast.If) and not s0.orelse and ast.unparse(s0.test) == f"{A} is None" and len(s0.body) == 1 \
+        and ast.unparse(s0.body[0]) in (f"{A} = dict()", f"{A} = {{}}")
+    ok = ok and isinstance(s1, ast.If) and not s1.orelse and ast.unparse(s1.test) in (f"{A}.get({c}, None) is None", f"{A}.get({c}) is None")
+    ok = ok and isinstance(s2, ast.Return) and ast.unparse(s2.value) == f"{A}[{c}]"
+    if not ok: raise TranslateError(f"{fn.name}: guards / return not recognised")
+    blk = _strip(s1.body)
+    if not blk or ast.unparse(blk[0]) != f"{A}[{c}] = []": raise TranslateError(f"{fn.name}: the entry is not initialised with []")
+    f = PFn(unit, "conn", fn, lean)
+    env = {c: (f.fresh(), "nat")}
+    lines = []
+
+    def go(stmts, env, ind):
+        out = []
+        for st in _strip(stmts):
+            if isinstance(st, ast.For):
+                if st.orelse or not isinstance(st.target, ast.Name): raise f.err("loop shape")
+                L, tL = f.cx_atom(st.iter, env)
+                if tL != "list": raise f.err("loop over a non-list")
+                x = f.fresh()
+                inner = dict(env); inner[st.target.id] = (x, "nat")
+                out.append(f"{ind}let acc := {L}.foldl (fun acc {x} =>")
+                out += go(st.body, inner, ind + "  ")
+                out.append(f"{ind}  acc) acc")
+                continue
+            if isinstance(st, ast.Assign) and len(st.targets) == 1 and isinstance(st.targets[0], ast.Tuple) and isinstance(st.value, ast.Tuple) \
+                    and len(st.targets[0].elts) == len(st.value.elts) and all(isinstance(e, ast.Name) for e in st.targets[0].elts):
+                vals = [f.cx(e, env) for e in st.value.elts]
+                for nm, (e, t) in zip(st.targets[0].elts, vals):
+                    if t.rstrip("*") != "nat": raise f.err("unpacked value type")
+                    x = f.fresh(); env[nm.id] = (x, "nat")
+                    out.append(f"{ind}let {x} := {e}")
+                continue
+            if isinstance(st, ast.Assign) and len(st.targets) == 1 and isinstance(st.targets[0], ast.Name):
+                v = st.value
+                if isinstance(v, ast.Call) and isinstance(v.func, ast.Attribute) and resolve("conn", v.func) == ("conn", "edge_id") and len(v.args) == 2 and not v.keywords:
+                    a = [f.cx_atom(x_, env) for x_ in v.args]
+                    if any(t != "nat" for _, t in a): raise f.err("edge_id arguments")
+                    x = f.fresh(); env[st.targets[0].id] = (x, "optnat")
+                    out.append(f"{ind}let {x} := m.edgeId {a[0][0]} {a[1][0]}")
+                else:
+                    out.append(f.let(st, env, ind))
+                continue
+            if isinstance(st, ast.If) and not st.orelse and len(st.body) == 1 and isinstance(st.test, ast.Compare) and len(st.test.ops) == 1 \
+                    and isinstance(st.test.ops[0], ast.IsNot) and isinstance(st.test.comparators[0], ast.Constant) and st.test.comparators[0].value is None \
+                    and isinstance(st.test.left, ast.Name) and env.get(st.test.left.id, (None, None))[1] == "optnat":
+                e = env[st.test.left.id][0]
+                b = st.body[0]
+                if ast.unparse(b) != f"{A}[{c}].append({st.test.left.id})": raise f.err(f"guarded statement is not an append to the entry: {ast.unparse(b)[:50]}")
+                out.append(f"{ind}let acc := if {e}.isSome then acc ++ [{e}.getD 0] else acc")
+                continue
+            raise f.err(f"unsupported statement {ast.unparse(st)[:60]}")
+        return out
+    lines = go(blk[1:], env, "  ")
+    unit.text.append(f"/-- `{fn.name}`: the entry `_adjC2E[c]` as it is built on the first request for cell `c` -/\n"
+                     f"def {lean} (m : Mesh) ({env[c][0]} : Nat) : List Nat :=\n  let acc : List Nat := []\n" + "\n".join(lines) + "\n  acc\n")
+    return {"lines": len(lines)}
+
+
+def try_attr_property(unit, fn, lean):
+    """`@property def boundary_mesh(self): try: return self.X.Y  except Exception: return None`"""
+    if [ast.unparse(x) for x in fn.decorator_list] != ["property"] or [a.arg for a in fn.args.args] != ["self"]: raise TranslateError(f"{fn.name}: not a property")
+    body = _body(fn)
+    ok = len(body) == 1 and isinstance(body[0], ast.Try) and not body[0].orelse and not body[0].finalbody and len(body[0].handlers) == 1
+    if ok:
+        t = body[0]
+        h = t.handlers[0]
+        ok = (h.type is None or ast.unparse(h.type) in ("Exception", "AttributeError")) and len(h.body) == 1 and isinstance(h.body[0], ast.Return) \
+            and (h.body[0].value is None or (isinstance(h.body[0].value, ast.Constant) and h.body[0].value.value is None)) \
+            and len(t.body) == 1 and isinstance(t.body[0], ast.Return)
+    if not ok: raise TranslateError(f"{fn.name}: not `try: return .. except Exception: return None`")
+    ch = _chain(body[0].body[0].value)
+    if not ch or len(ch) != 3 or ch[0] != "self": raise TranslateError(f"{fn.name}: returns {ast.unparse(body[0].body[0].value)}")
+    obj, attr = ch[1], ch[2]
+    unit.text.append(f"/-- `{fn.name}`: `try: return self.{obj}.{attr}` / `except Exception: return None` (`self.{obj}` is `None` until it is enabled) -/\n"
+                     f"def {lean} {{β μ : Type}} ({obj} : Option β) ({attr} : β → μ) : Option μ :=\n  tryAttr {obj} {attr}\n")
+    unit.text.append(f"/-- which attribute of which object `{fn.name}` returns -/\ndef {lean}_reads : String × String := (\"{obj}\", \"{attr}\")\n")
+    return {"object": obj, "attribute": attr}
+
+
 def site_small():
     tree, _ = T.load(VOL)
     u = Unit()
@@ -1633,6 +1723,8 @@ def site_small():
     ce = _get(tree, "VolumeMesh._compute_interior_boundary_edges")
     if not any(isinstance(x, ast.Attribute) and isinstance(x.ctx, ast.Store) and resolve("mesh", x) == ("own", "_is_edge_on_border") for x in ast.walk(ce)):
         raise TranslateError("_compute_interior_boundary_edges does not store self._is_edge_on_border")
+    d["cell_to_edge"] = cell_to_edge_fn(u, _get(tree, C + "cell_to_edge"), "cell_to_edge")
+    d["boundary_mesh"] = try_attr_property(u, _get(tree, "VolumeMesh.boundary_mesh"), "boundary_mesh")
     u.fields_ext = {"_is_edge_on_border": "_compute_interior_boundary_edges"}
     d["is_edge_on_border"] = guarded_star_flag(u, _get(tree, "VolumeMesh.is_edge_on_border"), "is_edge_on_border", "_is_edge_on_border",
                                                "C03S.compute_interior_boundary_edges", "is_edge_on_border")
@@ -1644,7 +1736,7 @@ def site_small():
 TRANSLATED_R7 = ["VolumeMesh._Connectivity.cell_to_vertex", "VolumeMesh._Connectivity.n_F2C", "VolumeMesh.id_vertices", "VolumeMesh.id_edges",
                  "VolumeMesh.id_faces", "VolumeMesh.id_cells", "VolumeMesh.is_cell_tet", "VolumeMesh.is_tetrahedral",
                  "VolumeMesh._Connectivity.common_face", "VolumeMesh._Connectivity.in_cell_index", "VolumeMesh._Connectivity.in_cell_face_index",
-                 "VolumeMesh.is_edge_on_border"]
+                 "VolumeMesh.is_edge_on_border", "VolumeMesh._Connectivity.cell_to_edge", "VolumeMesh.boundary_mesh"]
 
 
 def _stub(name, ns, header, why):
